@@ -75,6 +75,9 @@ class Interp(object):
         self.opaque_mul = opaque_mul
         self.fn_steps = {}
         self.callstack = []
+        self.assume_lits = []          # bit-level mode: literals assumed true (input constraints)
+        self.sat_dir = None
+        self.sat_calls = 0
         self.concrete_secrets = None   # replay mode: dict var name -> value
         self.trace = None              # replay mode: list of control-flow / address observations
 
@@ -164,6 +167,8 @@ class Interp(object):
             self.obs_concrete += 1
             return v
         self.obs_solver += 1
+        if T.AIG is not None and isinstance(v, T.AIG.AV):
+            return self.observe_aig(v, kind, where)
         if self.z3 is None:
             raise Violation("nonint", where, "%s depends on symbolic data (no solver)" % kind)
         z3 = self.z3
@@ -190,6 +195,42 @@ class Interp(object):
             raise Violation("nonint", where, "%s takes different values for different secrets (%s vs %s)"
                             % (kind, v1, m2.eval(e, model_completion=True)), model=(show(m1), show(m2)))
         raise Unsupported("public symbolic %s at %s" % (kind, where))
+
+    def observe_aig(self, v, kind, where):
+        """bit-level mode: an observed value must be constant under self.assume_lits for the chosen public shape;
+        each non-constant literal is decided by two SAT queries (kissat)"""
+        from . import equiv
+        A = T.AIG
+        g = A.G
+        val = 0
+        for i, l in enumerate(v.bits):
+            if l <= 1:
+                val |= l << i
+                continue
+            res = {}
+            models = []
+            for pol in (0, 1):
+                t0 = time.time()
+                nv, cl, vm = A.to_cnf(g, list(self.assume_lits) + [l ^ 1 ^ pol])
+                r, mdl = equiv.kissat(nv, cl, 60, self.sat_dir)
+                self.solver_time += time.time() - t0
+                self.sat_calls += 1
+                res[pol] = r
+                if r == "sat":
+                    models.append({g.names[k]: mdl.get(x, False) for k, x in vm.items() if g.kind[k] == 1})
+            if res[1] == "unsat" and res[0] == "sat":
+                pass
+            elif res[0] == "unsat" and res[1] == "sat":
+                val |= 1 << i
+            elif res[0] == "unsat" and res[1] == "unsat":
+                raise Unsupported("assumptions unsatisfiable at %s" % where)
+            elif "unknown" in res.values():
+                raise Unsupported("solver timeout on %s at %s" % (kind, where))
+            else:
+                raise Violation("symbolic-control", where, "%s is not determined by the public shape (depends on symbolic input)" % kind,
+                                model=models)
+        self.obs_log.append((kind, where, "SAT-proved constant %d" % val))
+        return val
 
     # ---------------- globals ----------------
     def global_ptr(self, name):
@@ -254,7 +295,20 @@ class Interp(object):
                 return [self.const_value(rty.a[i] if rty.k == "struct" else rty.b, d, frame) for i in range(n)]
             return 0
         if k == "vecc":
-            return [self.const_value(None, e, frame) if e[0] != "c" else e[1] for e in d[1]]
+            ety = None
+            if ty is not None:
+                rty = self.mod.resolve(ty)
+                if rty.k == "vec":
+                    ety = rty.b
+            out = []
+            for e in d[1]:
+                if e[0] == "c":
+                    out.append(self.const_value(ety, e, frame) if ety is not None else e[1])
+                elif e[0] in ("zero", "undef"):
+                    out.append(0)
+                else:
+                    out.append(self.const_value(ety, e, frame))
+            return out
         if k == "cgep":
             base = self.const_value(None, d[2], frame)
             return self.gep(base, d[1], [(ity, self.const_value(ity, iv, frame)) for ity, iv in d[3]], "constexpr")
@@ -384,6 +438,11 @@ class Interp(object):
         m = re.match(r"^@llvm\.ctpop\.i(\d+)$", n)
         if m and not isinstance(args[0], T.Term):
             return bin(args[0]).count("1")
+        if n.startswith("@llvm.x86."):
+            from . import x86
+            r = x86.dispatch(n, args)
+            if r is not NotImplemented:
+                return r
         if n in ("@sodium_misuse", "@abort", "@__assert_fail"):
             raise Violation("abort", where, "%s reached" % n)
         if n.startswith("@_sodium_dummy_symbol"):
